@@ -332,6 +332,8 @@ class RInit:
         self.drop_empty = 'drop_empty' in hyp          # a leading {} item is ignored instead of initialising a subobject
         self.last_elem = 'last_elem' in hyp            # overriding the LAST element of a string-initialised array drops the string
         self.union_keep = 'union_keep' in hyp          # initialising another union member keeps the bytes of the previous one
+        self.short_patch = 'short_patch' in hyp        # an element override beyond the end of a SHORTER string literal is lost
+        self.strlit = {}
         self.strregions = {}
         self.pos = 0
         self.img = bytearray()
@@ -354,17 +356,23 @@ class RInit:
             del self.rel[o]
         for k in [k for k in self.active if off <= k[0] < off + bits]:
             del self.active[k]
+        for k in [k for k in self.strregions if off <= k and k + self.strregions[k] <= off + bits]:
+            del self.strregions[k]
 
     def store(self, fr, val):
         t = fr.type
         self.ensure((fr.off + fr.bits + 7) // 8)
         for o in [o for o in self.rel if fr.off <= 8 * o < fr.off + fr.bits]:
             del self.rel[o]
+        if self.short_patch:
+            for rs, rb in self.strregions.items():
+                if rs <= fr.off < rs + rb and fr.off >= rs + self.strlit.get(rs, rb):
+                    return
         if self.last_elem:
             for rs, rb in list(self.strregions.items()):
                 if rs < fr.off and rs + rb == fr.off + fr.bits:
                     self.zero(rs, rb)
-                    del self.strregions[rs]
+                    self.strregions.pop(rs, None)
         if val[0] == 'widestrp':
             raise Invalid('incompatible-pointer')
         if val[0] == 'int':
@@ -508,6 +516,7 @@ class RInit:
                 raise Invalid('string-too-long')
         self.zero(fr.off, 8 * w * n)
         self.strregions[fr.off] = 8 * w * n
+        self.strlit[fr.off] = 8 * w * (len(chars) + 1)
         for i, c in enumerate(chars[:n]):
             L.set_bits(self.img, fr.off + 8 * w * i, 8 * w, c)
 
@@ -615,7 +624,8 @@ HYPOTHESES = (('no_reset', 'image/aggregate-reinit-keeps-stale-members'),
               ('bool_raw', 'image/bool-member-not-converted-to-0-or-1'),
               ('drop_empty', 'image/leading-empty-braces-ignored'),
               ('last_elem', 'image/string-lost-when-last-array-element-overridden'),
-              ('union_keep', 'image/union-member-switch-keeps-previous-member'))
+              ('union_keep', 'image/union-member-switch-keeps-previous-member'),
+              ('short_patch', 'image/override-beyond-shorter-string-literal-lost'))
 
 
 def explain(ot, top, sem, match):
@@ -639,7 +649,7 @@ def model(ot, top, sem, hyp=None, trace=None):
         size, img, rel = r.run(top)
     except Invalid as e:
         return ('invalid', str(e))
-    return ('ok', size, img, rel, r.overflow)
+    return ('ok', size, img, rel, r.overflow, dict(r.strregions))
 
 
 # ---------------------------------------------------------------------------
@@ -1104,6 +1114,14 @@ def job(batch):
                 if [g0] + got[1:] != lines:
                     fam = 'auto/%s-%s' % (ot.kind, 'pointer' if g0 == lines[0] else diff_class((exp[0], bytes.fromhex(lines[0]), ()), (exp[0], bytes.fromhex(g0), ())) if len(g0) == len(lines[0]) else 'size')
                     fam = explain(ot, info[i]['top'], info[i]['sem'], lambda k: k[0] == exp[0] and d_expected(ot, k)[0] == [g0] + got[1:]) or fam
+                    if fam.startswith('auto/') and got[1:] == lines[1:] and len(g0) == len(lines[0]):
+                        # every differing byte lies in an array that was initialised by a string literal and reads as zero:
+                        # "automatic object: bytes of a string are zeroed again after a later override inside it"
+                        regs = info[i]['R'][5]
+                        eb, gb = bytes.fromhex(lines[0]), bytes.fromhex(g0)
+                        bad = [j for j in range(len(eb)) if eb[j] != gb[j]]
+                        if bad and all(gb[j] == 0 and any(rs <= 8 * j < rs + rb for rs, rb in regs.items()) for j in bad):
+                            fam = 'auto/string-bytes-zeroed-after-override-inside-string'
                     out['viol'].append((fam, i, TYPES.index(ot), 'void f(void) { %s = %s; }' % (ot.T.decl('x'), itext),
                                         'automatic object: expected value bytes/pointers %s' % lines, 'observed %s' % ([g0] + got[1:])))
     out['states'], out['trans'] = states, trans
